@@ -56,6 +56,8 @@ func (st *DnsServer) Startup(channels Channels) error {
 	server := &dns2.Server{
 		Addr: a.Host,
 		Net:  a.Scheme,
+		// A tunnel session is one long-lived TCP connection; the library default closes it after 128 queries.
+		MaxTCPQueries: -1,
 	}
 
 	if st.secure {
